@@ -1398,7 +1398,7 @@ class Scale(Entry):
         cs = []
         if round > 0:
             return cs
-        for j in range(ctx.n(1, 6)):
+        for j in range(ctx.n(1, 3)):
             kind = ["i8", "U", "f8", "u2", "S", "i4"][j % 6]
             pool = gen_pool(r, kind, "small" if j % 2 == 0 else "large", 14)
             if len(pool) < 4:
